@@ -55,7 +55,8 @@ var repoDir = envOr("VSIM_REPO_DIR", "/repo")
 type variant struct {
 	Name      string
 	Race      bool
-	Quick     int // rapid checks per worker
+	Instr     bool // build this variant through the yield-point overlay (tag instr)
+	Quick     int  // rapid checks per worker
 	Thorough  int
 	Workers   int
 	CPU       int // -test.cpu
@@ -161,7 +162,13 @@ func build(p *propCfg, only string) (*built, error) {
 	}
 	b := &built{dir: dir, bins: map[string]string{}}
 	overlay := ""
-	if p.Instr {
+	needInstr := p.Instr
+	for _, v := range p.Variants {
+		if v.Instr && (only == "" || only == v.Name) {
+			needInstr = true
+		}
+	}
+	if needInstr {
 		overlay = filepath.Join(dir, "overlay.json")
 		cmd := exec.Command(filepath.Join(verifDir, "bin", "instr"), "-repo", repoDir, "-out", filepath.Join(dir, "instr"), "-overlay", overlay, "-sites", filepath.Join(dir, "sites.tsv"))
 		cmd.Env = env()
@@ -199,7 +206,7 @@ func build(p *propCfg, only string) (*built, error) {
 		if v.Race {
 			args = append(args, "-race")
 		}
-		if overlay != "" {
+		if overlay != "" && (p.Instr || v.Instr) {
 			args = append(args, "-overlay", overlay, "-tags", "instr")
 		}
 		args = append(args, "./"+p.Pkg)
